@@ -254,13 +254,18 @@ Proof.
         * destruct k; discriminate. }
   destruct (lookup t (registry s2)).
   - intros H; inversion H; subst. exact W2.
-  - intros H; inversion H; subst. apply WI_deliver_plain; [discriminate|intros w; discriminate|].
+  - set (s5 := deliver_sys _ t self SLaunch).
+    assert (W5 : WI s5).
+    { unfold s5. apply WI_deliver_plain; [discriminate|intros w; discriminate|].
     apply WI_upd_actor; [wp|]. apply (WI_step s2); [exact W2| |intros c ac Hc; exists ac; auto|].
     + intros t0 v H0. cbn [registry set_registry set_key lookup] in H0. destruct (t0 =? t) eqn:Et.
       * inversion H0; subst v. apply Z.eqb_eq in Et. subst t0. exists (new_actor t self r inst). split; [|reflexivity].
         unfold get, s2, set_actors, set_registry; cbn [actors]. rewrite nth_error_app2 by apply Nat.le_refl. rewrite Nat.sub_diag. reflexivity.
       * destruct W2 as [HR2 _]. apply HR2. eapply lookup_remove_key. exact H0.
-    + intros v a' Hg. right. exists a'. split; [exact Hg|]. split; [reflexivity|]. split; [apply incl_refl|]. split; auto.
+    + intros v a' Hg. right. exists a'. split; [exact Hg|]. split; [reflexivity|]. split; [apply incl_refl|]. split; auto. }
+    unfold stop_if_parent_gone. destruct (get s5 u) as [pa|]; [|intros H; inversion H; subst; exact W5].
+    destruct (st_ge_terminating (a_st pa)); [|intros H; inversion H; subst; exact W5].
+    destruct (terminate s5 self t (a_graceful pa)) as [s6 o6] eqn:E6. intros H; inversion H; subst. eapply WI_terminate; [exact E6|exact W5].
 Qed.
 
 Lemma WI_escalate s u r s' o p : escalate s u r = (s', o, p) -> WI s -> WI s'.
@@ -644,7 +649,10 @@ Proof.
 Qed.
 Lemma nt_spawn s u self t r s' o p : spawn s u self t r = (s', o, p) -> nt o.
 Proof.
-  unfold spawn. destruct (provide s t) as [s1 inst]. destruct (lookup t _); intros H; inversion H; subst; reflexivity.
+  unfold spawn. destruct (provide s t) as [s1 inst]. destruct (lookup t _); [intros H; inversion H; subst; reflexivity|].
+  unfold stop_if_parent_gone. destruct (get _ u) as [pa|]; [|intros H; inversion H; subst; reflexivity].
+  destruct (st_ge_terminating (a_st pa)); [|intros H; inversion H; subst; reflexivity].
+  destruct (terminate _ self t (a_graceful pa)) as [sa oa] eqn:E. intros H; inversion H; subst. eapply nt_terminate; exact E.
 Qed.
 Lemma nt_escalate s u r s' o p : escalate s u r = (s', o, p) -> nt o.
 Proof.
